@@ -16,9 +16,9 @@ func init() {
 		ID:    "C16",
 		Title: "COBS framing delivers each frame intact for any read chunking",
 		Explanation: "Byte-conservation clauses of the COBS reader/writer decided on every CFG path (DESIGN.md §3/C16); the behaviour over all read segmentations is NOT decided. " +
-			"R1 on the device-read path every return that hands a frame to the caller is preceded by a write of b[terminator(+1) : readStart+count] into the leftover buffer (or the tail is provably empty), the decoded slice starts at 0 and ends at the terminator, and the byte tested as terminator lies below readStart+count; " +
+			"R1 on the device-read path every return that hands a frame to the caller is preceded by a write of b[terminator(+1) : readStart+count] into the leftover buffer (or the tail is provably empty), the decoded slice starts at 0 and ends at the terminator, the byte tested as terminator lies below readStart+count, and the written value is that slice itself or a byte-for-byte copy (a bytes.Trim*/Replace*/Map… of it is a violation); " +
 			"R2 before the first device read the leftover bytes are either known absent, or moved into b[0:] exactly once by leftover.Read (which drains them) and the device read starts exactly behind them; bytes handed to a bytes.NewBuffer object that is never read, or copied without being removed, are lost / seen twice; " +
-			"R3 a frame served from the leftover buffer takes out of it exactly the prefix ending at the terminator it found (tested below the length of the leftover bytes), into b[0:], and decodes no more than it took; " +
+			"R3 a frame served from the leftover buffer takes out of it exactly the prefix ending at the terminator it found (tested below the length of the leftover bytes; leftover.Read, or copy plus leftover.Next now or deferred), into b[0:], and decodes no more than it took; every exit taken after such a fragment was found and before any device read — error exits included — has removed it (progress); " +
 			"R4 the read loop calls the device again only with b[previous start + previous count:] and only after that position was established to be < len(b); after a device read without error it gives up (returns nothing) only when the position reached len(b) or exceeds a configuration field of the receiver; " +
 			"R5 what the writer hands to the device is zero bytes followed by Encode(<whole payload parameter>) on every non-error path. " +
 			"Index arithmetic is compared as linear forms over the current values of local variables; facts are dropped when a variable is assigned.",
@@ -36,14 +36,15 @@ func init() {
 // anchors
 
 type c16Reader struct {
-	f        *kit.Func
-	recv     types.Object // receiver variable
-	buf      *types.Var   // the caller's []byte
-	dev      *types.Var   // interface-typed field whose Read is called
-	lo       *types.Var   // bytes.Buffer field (leftover)
-	lbVars   map[types.Object]bool
-	viewVars map[types.Object]bool // locals that only ever hold views of buf
-	unsafe   map[types.Object]bool // ints whose address is taken / assigned in closures
+	f         *kit.Func
+	recv      types.Object // receiver variable
+	buf       *types.Var   // the caller's []byte
+	dev       *types.Var   // interface-typed field whose Read is called
+	lo        *types.Var   // bytes.Buffer field (leftover)
+	lbVars    map[types.Object]bool
+	viewVars  map[types.Object]bool   // locals that only ever hold views of buf
+	lossyVars map[types.Object]string // locals that hold a lossy transformation of a view of buf
+	unsafe    map[types.Object]bool   // ints whose address is taken / assigned in closures
 }
 
 func c16IsByteSlice(t types.Type) bool {
@@ -235,6 +236,110 @@ func (rd *c16Reader) prepare() {
 	for o := range rd.unsafe {
 		delete(rd.viewVars, o)
 	}
+	// locals that receive a lossy transformation of a view (x := bytes.TrimLeft(b[..], …);
+	// also x = bytes.TrimLeft(x, …) for a view variable x, which then stops being a view)
+	rd.lossyVars = map[types.Object]string{}
+	for round := 0; round < 2; round++ {
+		ast.Inspect(rd.f.Body, func(x ast.Node) bool {
+			as, ok := x.(*ast.AssignStmt)
+			if !ok || len(as.Lhs) != len(as.Rhs) {
+				return true
+			}
+			for i, l := range as.Lhs {
+				o, ok := kit.ObjOf(info, l).(*types.Var)
+				if !ok || o.IsField() || !c16IsByteSlice(o.Type()) {
+					continue
+				}
+				save := rd.viewVars
+				if bad[o] {
+					// a variable that is a view except for lossy reassignments
+					tmp := map[types.Object]bool{o: true}
+					for k, v := range rd.viewVars {
+						tmp[k] = v
+					}
+					rd.viewVars = tmp
+				}
+				if why := rd.lossy(as.Rhs[i]); why != "" {
+					rd.lossyVars[o] = why
+				}
+				rd.viewVars = save
+			}
+			return true
+		})
+	}
+}
+
+// c16Lossy lists library functions whose result can be shorter than, or
+// differ from, their first argument.
+var c16Lossy = map[string]bool{
+	"bytes.Trim": true, "bytes.TrimLeft": true, "bytes.TrimRight": true, "bytes.TrimSpace": true,
+	"bytes.TrimPrefix": true, "bytes.TrimSuffix": true, "bytes.TrimFunc": true, "bytes.TrimLeftFunc": true,
+	"bytes.TrimRightFunc": true, "bytes.Replace": true, "bytes.ReplaceAll": true, "bytes.ToUpper": true,
+	"bytes.ToLower": true, "bytes.ToTitle": true, "bytes.Map": true, "bytes.ToValidUTF8": true,
+	"bytes.CutPrefix": true, "bytes.CutSuffix": true,
+}
+
+// preserving strips wrappers that copy their argument byte for byte:
+// bytes.Clone(x), slices.Clone(x), append([]byte(nil), x...), append([]byte{}, x...).
+func (rd *c16Reader) preserving(e ast.Expr) ast.Expr {
+	info := rd.f.Info()
+	for depth := 0; depth < 4; depth++ {
+		call, ok := ast.Unparen(e).(*ast.CallExpr)
+		if !ok {
+			return e
+		}
+		if kit.CallIs(info, call, "bytes.Clone", "slices.Clone") && len(call.Args) == 1 {
+			e = call.Args[0]
+			continue
+		}
+		if bi, ok := kit.Callee(info, call).(*types.Builtin); ok && bi.Name() == "append" && len(call.Args) == 2 && call.Ellipsis.IsValid() {
+			empty := kit.IsNilIdent(info, call.Args[0])
+			if cl, ok := ast.Unparen(call.Args[0]).(*ast.CompositeLit); ok && len(cl.Elts) == 0 {
+				empty = true
+			}
+			if cv, ok := ast.Unparen(call.Args[0]).(*ast.CallExpr); ok && len(cv.Args) == 1 && kit.IsNilIdent(info, cv.Args[0]) {
+				if tv, ok := info.Types[cv.Fun]; ok && tv.IsType() {
+					empty = true
+				}
+			}
+			if empty {
+				e = call.Args[1]
+				continue
+			}
+		}
+		return e
+	}
+	return e
+}
+
+// lossy: e is a view of the caller's buffer passed through a function that
+// can drop or change bytes (directly or through a local variable).
+func (rd *c16Reader) lossy(e ast.Expr) string {
+	info := rd.f.Info()
+	e = ast.Unparen(rd.preserving(e))
+	if id, ok := e.(*ast.Ident); ok {
+		if o := kit.ObjOf(info, id); o != nil && rd.lossyVars[o] != "" {
+			return rd.lossyVars[o]
+		}
+		return ""
+	}
+	call, ok := e.(*ast.CallExpr)
+	if !ok || len(call.Args) == 0 {
+		return ""
+	}
+	if q := kit.QualName(kit.Callee(info, call)); c16Lossy[q] {
+		inner := rd.preserving(call.Args[0])
+		isV := kit.IsViewOf(info, inner, rd.buf)
+		if id, ok := ast.Unparen(inner).(*ast.Ident); ok {
+			if o := kit.ObjOf(info, id); o != nil && (rd.viewVars[o] || rd.lossyVars[o] != "") {
+				isV = true
+			}
+		}
+		if isV || rd.lossy(inner) != "" {
+			return rd.f.Str(call)
+		}
+	}
+	return ""
 }
 
 // isLeftover: `<recv>.<lo>` (optionally behind & or parentheses).
@@ -269,6 +374,31 @@ func (rd *c16Reader) mentionsLeftover(e ast.Node) bool {
 	found := false
 	ast.Inspect(e, func(x ast.Node) bool {
 		switch y := x.(type) {
+		case *ast.SelectorExpr:
+			if rd.isLeftover(y) {
+				found = true
+			}
+		case *ast.Ident:
+			if o := kit.ObjOf(rd.f.Info(), y); o != nil && rd.lbVars[o] {
+				found = true
+			}
+		}
+		return !found
+	})
+	return found
+}
+
+// mentionsLeftoverShallow is mentionsLeftover without looking into nested
+// calls (they are classified on their own), except leftover.Bytes().
+func (rd *c16Reader) mentionsLeftoverShallow(e ast.Node) bool {
+	found := false
+	ast.Inspect(e, func(x ast.Node) bool {
+		switch y := x.(type) {
+		case *ast.CallExpr:
+			if rd.loMethod(y) == "Bytes" {
+				found = true
+			}
+			return false
 		case *ast.SelectorExpr:
 			if rd.isLeftover(y) {
 				found = true
@@ -338,6 +468,11 @@ func c16Add(list *[]string, msg string) {
 	*list = append(*list, msg)
 }
 
+type c16Decode struct {
+	call *ast.CallExpr
+	arg  ast.Expr
+}
+
 type c16Verdict struct {
 	kind string // ok | viol | undec
 	msg  string
@@ -369,7 +504,7 @@ type c16Flow struct {
 	ss  c16Sites
 	// write-only buffers: local variables made by bytes.NewBuffer whose every use is a write
 	writeOnly map[types.Object]bool
-	verdicts  []c16Verdict // table for decode verdicts bound to count variables
+	decodes   []c16Decode // decode calls whose count is bound to a variable
 }
 
 func (fl *c16Flow) intern(a kit.Affine) string {
@@ -907,6 +1042,9 @@ func (fl *c16Flow) judgeAfterDevice(s kit.S, arg ast.Expr, dhi kit.Affine) c16Ve
 		Ks[i] = fl.substEq(Ks[i], s)
 	}
 	saved := s.Get("q:saved")
+	if strings.HasPrefix(saved, "lossy:") {
+		return c16V("viol", "the bytes behind the terminator are not saved as they are: %s can drop or change bytes before they reach the leftover buffer, so the next call does not see exactly b[terminator+1 : end of read]", strings.TrimPrefix(saved, "lossy:"))
+	}
 	switch saved {
 	case "stale":
 		return c16V("undec", "a variable of the saved tail's bounds changes between the save and the return of %s", rd.f.Str(arg))
@@ -1023,6 +1161,34 @@ func c16LossText(d int64) string {
 func (fl *c16Flow) judgeFromLeftover(s kit.S, arg ast.Expr, dhi kit.Affine) c16Verdict {
 	rd := fl.rd
 	mv := s.Get("q:mv")
+	took := s.Get("q:took")
+	if took == "" {
+		took = s.Get("q:tookD")
+	}
+	var taken kit.Affine
+	haveTaken := false
+	if mv == "" && s.Get("q:cpB") != "" && s.Get("q:lounk") == "" {
+		// copy(b[lo:], lb[slo:shi]) plus leftover.Next(n) (now or deferred)
+		cp := strings.SplitN(s.Get("q:cpB"), "|", 3)
+		dlo, okd := fl.tab[cp[0]]
+		slo, oks := fl.tab[cp[1]]
+		shi, okh := fl.tab[cp[2]]
+		if !okd || !oks || !okh {
+			return c16V("undec", "bounds of the copy out of the leftover bytes lost")
+		}
+		if k, isC := fl.substEq(slo, s).Const(); !isC || k != 0 {
+			return c16V("undec", "the frame is copied from the middle of the leftover bytes")
+		}
+		if took == "" {
+			return c16V("viol", "a frame (%s) is copied out of the leftover bytes and returned but never removed from the leftover buffer: the next call delivers it again", rd.f.Str(arg))
+		}
+		tk, okt := fl.tab[took]
+		if !okt {
+			return c16V("undec", "the number of bytes removed from the leftover buffer is not linear in local variables")
+		}
+		taken, haveTaken = fl.substEq(tk, s), true
+		mv = fl.intern(dlo) + "|" + fl.intern(dlo.Add(shi.Sub(slo)))
+	}
 	if mv == "" {
 		if s.Get("q:lounk") != "" {
 			return c16V("undec", "a frame (%s) is returned before any device read and the leftover buffer is used in a way the rule does not model", rd.f.Str(arg))
@@ -1054,16 +1220,20 @@ func (fl *c16Flow) judgeFromLeftover(s kit.S, arg ast.Expr, dhi kit.Affine) c16V
 	if len(Ks) == 0 {
 		return c16V("undec", "no `leftover[x] == 0` test on the path identifies the terminator of the frame served from the leftover buffer")
 	}
-	n := mhi.Sub(mlo)
+	n := mhi.Sub(mlo) // bytes placed in b[0:]
+	if !haveTaken {
+		taken = n // leftover.Read removes what it places
+	}
 	var bad []string
 	for _, K := range Ks {
 		d1, c1 := dhi.Sub(K).Const()
-		d2, c2 := n.Sub(K).Const()
-		if !c1 || !c2 {
+		d2, c2 := taken.Sub(K).Const()
+		d3, c3 := n.Sub(dhi).Const() // placed - decoded >= 0
+		if !c1 || !c2 || !c3 {
 			continue
 		}
 		switch {
-		case c16In01(d1) && c16In01(d2) && d1 <= d2:
+		case c16In01(d1) && c16In01(d2) && d3 >= 0:
 			lbLen := kit.Affine{}
 			for o := range rd.lbVars {
 				lbLen = kit.AffLen(o)
@@ -1075,7 +1245,7 @@ func (fl *c16Flow) judgeFromLeftover(s kit.S, arg ast.Expr, dhi kit.Affine) c16V
 			}
 			return c16V("ok", "took leftover[0:%s] into b[0:], decoded b[0:%s], terminator at leftover[%s]", n.String(), dhi.String(), K.String())
 		case !c16In01(d2):
-			bad = append(bad, fmt.Sprintf("%s bytes are taken out of the leftover buffer but the terminator is at index %s (%+d): %s", n.String(), K.String(), d2, c16TakeText(d2)))
+			bad = append(bad, fmt.Sprintf("%s bytes are taken out of the leftover buffer but the terminator is at index %s (%+d): %s", taken.String(), K.String(), d2, c16TakeText(d2)))
 		case !c16In01(d1):
 			bad = append(bad, fmt.Sprintf("the decoded slice ends at b[:%s], %+d from the terminator index %s", dhi.String(), d1, K.String()))
 		default:
@@ -1284,6 +1454,14 @@ func (fl *c16Flow) run() {
 				return []kit.S{s.Set("q:lounk", "leftover.Read into something else than the caller's buffer at "+f.At(call))}
 			case "Write":
 				s = fl.dropPrefix(fl.dropPrefix(s, "a:z:l:"), "a:len:")
+				if len(call.Args) == 1 && s.Get("q:phase") == "dev" {
+					if why := rd.lossy(call.Args[0]); why != "" {
+						return []kit.S{s.Set("q:saved", "lossy:"+why+" at "+f.At(call))}
+					}
+				}
+				if len(call.Args) == 1 {
+					call = &ast.CallExpr{Fun: call.Fun, Lparen: call.Lparen, Args: []ast.Expr{rd.preserving(call.Args[0])}, Rparen: call.Rparen}
+				}
 				if len(call.Args) == 1 && fl.isView(call.Args[0]) && s.Get("q:phase") == "dev" {
 					lo, hi, ok := fl.viewBounds(call.Args[0], s)
 					if ok {
@@ -1302,6 +1480,17 @@ func (fl *c16Flow) run() {
 					return []kit.S{s.Set("q:saved", "stale")}
 				}
 				return []kit.S{s.Set("q:lounk", "leftover.Write at "+f.At(call))}
+			case "Next":
+				// pure removal when the returned bytes are not used
+				if es, ok := n.(*ast.ExprStmt); ok && ast.Unparen(es.X) == ast.Expr(call) && len(call.Args) == 1 && s.Get("q:phase") != "dev" && s.Get("q:took") == "" {
+					s = fl.dropPrefix(s, "a:len:")
+					if cnt, ok := rd.aff(call.Args[0]); ok {
+						return []kit.S{s.Set("q:took", fl.intern(cnt))}
+					}
+					return []kit.S{s.Set("q:took", "?")}
+				}
+				s = fl.dropPrefix(fl.dropPrefix(s, "a:z:l:"), "a:len:")
+				return []kit.S{s.Set("q:lounk", "leftover."+m+" at "+f.At(call))}
 			default:
 				s = fl.dropPrefix(fl.dropPrefix(s, "a:z:l:"), "a:len:")
 				return []kit.S{s.Set("q:lounk", "leftover."+m+" at "+f.At(call))}
@@ -1310,7 +1499,7 @@ func (fl *c16Flow) run() {
 		// other calls that receive leftover bytes
 		touches := false
 		for _, a := range call.Args {
-			if rd.mentionsLeftover(a) {
+			if rd.mentionsLeftoverShallow(a) {
 				touches = true
 			}
 		}
@@ -1326,7 +1515,16 @@ func (fl *c16Flow) run() {
 				return nil
 			case "copy":
 				if len(call.Args) == 2 && fl.isView(call.Args[0]) {
-					return []kit.S{s.Set("q:cp", "copy at "+f.At(call))}
+					s = s.Set("q:cp", "copy at "+f.At(call))
+					// copy(<view of b>, lb[lo:hi]): remember where the bytes come from and go to
+					if dlo, _, ok := fl.viewBounds(call.Args[0], s); ok {
+						for o := range rd.lbVars {
+							if slo, shi, ok2 := kit.SliceBounds(info, call.Args[1], o); ok2 {
+								s = s.Set("q:cpB", fl.intern(dlo)+"|"+fl.intern(slo)+"|"+fl.intern(shi))
+							}
+						}
+					}
+					return []kit.S{s}
 				}
 			}
 			return []kit.S{s.Set("q:lounk", bi.Name()+" at "+f.At(call))}
@@ -1432,13 +1630,32 @@ func (fl *c16Flow) run() {
 						s = s.Set("q:mvC", first)
 					default:
 						if arg := fl.decodeArg(call); arg != nil && first != "_" {
-							// verdict is decided now, reported when the count is returned
-							rule, v := fl.judgeDelivery(s, call, arg)
-							fl.verdicts = append(fl.verdicts, v)
-							s = s.Set("q:cnt:"+first, fmt.Sprintf("%s|%d", rule, len(fl.verdicts)-1))
+							// judged when the count is returned (a save / a removal from the
+							// leftover buffer may follow the decode)
+							idx := -1
+							for i, d := range fl.decodes {
+								if d.call == call {
+									idx = i
+								}
+							}
+							if idx < 0 {
+								fl.decodes = append(fl.decodes, c16Decode{call, arg})
+								idx = len(fl.decodes) - 1
+							}
+							s = s.Set("q:cnt:"+first, fmt.Sprintf("%d", idx))
 						}
 					}
 				}
+			}
+		case *ast.DeferStmt:
+			if rd.loMethod(y.Call) == "Next" && len(y.Call.Args) == 1 && s.Get("q:phase") != "dev" {
+				if cnt, ok := rd.aff(y.Call.Args[0]); ok {
+					s = s.Set("q:tookD", fl.intern(cnt))
+				} else {
+					s = s.Set("q:tookD", "?")
+				}
+			} else if rd.mentionsLeftover(y.Call) {
+				s = s.Set("q:lounk", "deferred "+f.Str(y.Call)+" at "+f.At(y))
 			}
 		case *ast.ExprStmt:
 			if call, ok := ast.Unparen(y.X).(*ast.CallExpr); ok {
@@ -1587,10 +1804,9 @@ func (fl *c16Flow) onReturn(r *ast.ReturnStmt, s kit.S, key string) {
 	}
 	if o := kit.ObjOf(info, r.Results[0]); o != nil {
 		if v := s.Get("q:cnt:" + kit.VarToken(o)); v != "" {
-			parts := strings.SplitN(v, "|", 2)
 			var idx int
-			fmt.Sscanf(parts[1], "%d", &idx)
-			emit(parts[0], fl.verdicts[idx])
+			fmt.Sscanf(v, "%d", &idx)
+			emit(fl.judgeDelivery(s, fl.decodes[idx].call, fl.decodes[idx].arg))
 			return
 		}
 	}
@@ -1609,6 +1825,7 @@ func (fl *c16Flow) onGiveUp(r *ast.ReturnStmt, s kit.S, key string) {
 	rd := fl.rd
 	f := rd.f
 	if s.Get("q:phase") != "dev" {
+		fl.onStuckExit(r, s, key)
 		return
 	}
 	// the device's own error is passed on
@@ -1657,6 +1874,64 @@ func (fl *c16Flow) onGiveUp(r *ast.ReturnStmt, s kit.S, key string) {
 		return
 	}
 	site.add(c16V("viol", "%s is reachable after a device read without error although neither %s >= len(%s) nor a configured limit is known to be exceeded: the part of a frame already in b is abandoned, frames that span two reads are lost", f.Str(r), end.String(), rd.buf.Name()))
+}
+
+// onStuckExit (R3, progress): a return that hands nothing to the caller, taken
+// before any device read although a terminated fragment was identified at
+// the head of the leftover buffer, must have removed that fragment: nothing
+// else changes between two calls, so the next call takes the same path for ever.
+func (fl *c16Flow) onStuckExit(r *ast.ReturnStmt, s kit.S, key string) {
+	rd := fl.rd
+	f := rd.f
+	Ks := fl.terminators(s, "l")
+	if len(Ks) == 0 {
+		return
+	}
+	site := fl.ss.at("R3", r, "exit before device read "+key, "an exit taken after a terminated fragment was found in the leftover buffer, without reading the device, has removed that fragment (up to its terminator) from the leftover buffer")
+	took := s.Get("q:took")
+	if took == "" {
+		took = s.Get("q:tookD")
+	}
+	var taken kit.Affine
+	have := false
+	switch {
+	case s.Get("q:mv") != "":
+		parts := strings.SplitN(s.Get("q:mv"), "|", 2)
+		lo, ok1 := fl.tab[parts[0]]
+		hi, ok2 := fl.tab[parts[1]]
+		if ok1 && ok2 {
+			taken, have = fl.substEq(hi.Sub(lo), s), true
+		}
+	case took != "":
+		if tk, ok := fl.tab[took]; ok {
+			taken, have = fl.substEq(tk, s), true
+		}
+	default:
+		switch {
+		case s.Get("q:lounk") != "":
+			site.add(c16V("undec", "%s: the leftover buffer is used in a way the rule does not model (%s)", f.Str(r), s.Get("q:lounk")))
+		case s.Get("q:unk") != "":
+			site.add(c16V("undec", "%s is reached without removal on a path that passed a decision the rule does not interpret (%s)", f.Str(r), s.Get("q:unk")))
+		default:
+			site.add(c16V("viol", "%s (at %s) is reachable after a terminated fragment was found in the leftover buffer, without reading the device and without removing anything from the leftover buffer: every later call finds the same fragment and returns the same way, no further frame is ever delivered", f.Str(r), f.At(r)))
+		}
+		return
+	}
+	if !have {
+		site.add(c16V("ok", "something is removed from the leftover buffer before the exit"))
+		return
+	}
+	for _, K := range Ks {
+		if d, isC := taken.Sub(fl.substEq(K, s)).Const(); isC {
+			if d > 1 {
+				site.add(c16V("viol", "%s removes %s bytes although the fragment ends at index %s: %d byte(s) of the following frame are dropped", f.Str(r), taken.String(), K.String(), d-1))
+			} else {
+				site.add(c16V("ok", "removes %s bytes, fragment terminator at index %s", taken.String(), K.String()))
+			}
+			return
+		}
+	}
+	site.add(c16V("ok", "something is removed from the leftover buffer before the exit"))
 }
 
 // isWriteOnly: e denotes a bytes.Buffer object made by bytes.NewBuffer /
